@@ -69,6 +69,8 @@ def search(ctx):
     for i in range(400):
         cfg = kfacsim.Config(rng)
         cfg.ops = kfacsim.gen_history(rng, rng.randrange(2, 10), whole_iterations=True, accum=cfg.accum)
+        kfacsim.fix_loads(cfg)
+        cfg.sched_seed = 31337 + i
         rr = kfacsim.run_real(cfg, sched_seed=31337 + i)
         kfacsim.oracle_trace(ctx, cfg, rr)
         if ctx.failures:
